@@ -5,7 +5,7 @@
    correspondence stream writes through real files). *)
 From Coq Require Import String.
 From Coq Require Import List Arith ZArith Bool.
-From PV Require Import Base.Index Np.Array Model.Sparse Model.Repr Model.C16IO Model.C16Lines Model.C16Harness Proofs.C16Proofs Proofs.C16Lines.
+From PV Require Import Base.Index Np.Array Model.Sparse Model.Repr Model.C16IO Model.C16Lines Model.C16Big Model.C16Text Model.C16Harness Proofs.C16Proofs Proofs.C16Lines Proofs.C16Big Proofs.C16Text Proofs.C16Fmt.
 Import ListNotations.
 
 Section C16.
@@ -121,6 +121,49 @@ Theorem C16_format_layout : forall (D T1 T2 : Type) (d0 : D) (print1 : D -> T1) 
   layout (export_lines D T1 d0 print1 b o) = layout (export_lines D T2 d0 print2 b o).
 Proof. exact export_layout_format_free. Qed.
 
+(* ---------------------------------------------------------------- sparse tensors with LONG modes (Model/C16Big.v) *)
+(* subscripts and mode sizes in Z: a sparse tensor may have modes of any length (2^60, ...), only the stored entries take
+   memory. Same line-sensitive reading as above, over Z: import (the lines export writes) = the tensor, for EVERY shape in Z
+   (order >= 1), every stored order, every index base *)
+Theorem C16_roundtrip_sptensor_long : forall (D T : Type) (print : D -> T) (parse : T -> D) (ofZ : Z -> D),
+  (forall v : D, parse (print v) = v) -> forall (b : Z) (S : spz D), wf_spz D S ->
+  import_spz_lines D T parse ofZ b (export_spz_lines D T print b S) = Some S.
+Proof. exact roundtrip_spz. Qed.
+(* ... and the Z model IS the nat object model: on every stream of tokens (well-formed file or not) the Z import is the
+   sparse result of import_data's model seen through Z.of_nat, and both exports write the same lines *)
+Theorem C16_long_import_bridge : forall (D T : Type) (d0 : D) (parse : T -> D) (ofZ : Z -> D) (b : Z) (s : stream T),
+  import_spz_stream D T parse ofZ b s = option_map (spz_of D) (as_sp D (import_stream D T d0 parse ofZ b s)).
+Proof. exact import_spz_bridge. Qed.
+Theorem C16_long_export_bridge : forall (D T : Type) (d0 : D) (print : D -> T) (b : Z) (Sp : sparse D),
+  export_lines D T d0 print b (OSptensor Sp) = export_spz_lines D T print b (spz_of D Sp).
+Proof. exact export_spz_bridge. Qed.
+
+(* ---------------------------------------------------------------- from CHARACTERS to tokens (Model/C16Text.v) *)
+(* readline().strip().split(" ") and np.fromfile's white-space skipping as one pass over the characters of the file (blank,
+   CR, LF, pieces free of white space). However each line is padded with blanks before and after its tokens and whichever
+   line end (LF or CR LF) it carries, the token stream is that of the lines *)
+Theorem C16_tokenise : forall (T : Type) (f : list (list (token T) * style)),
+  lex T (render T f) = to_stream T (map fst f).
+Proof. exact lex_render. Qed.
+(* hence the round trip on the characters export_data writes (single blanks, LF) and on any such re-styling of them *)
+Theorem C16_roundtrip_text : forall (D T : Type) (d0 : D) (print : D -> T) (parse : T -> D) (ofZ : Z -> D),
+  (forall v : D, parse (print v) = v) -> forall (b : Z) (o : obj D) (sty : list style),
+  wf_obj D o -> wf_lines D o -> length sty = length (export_lines D T d0 print b o) ->
+  import_text D T d0 parse ofZ b (render T (combine (export_lines D T d0 print b o) sty)) = Some o.
+Proof. exact roundtrip_text. Qed.
+
+(* ---------------------------------------------------------------- ANY number format (Proofs/C16Fmt.v) *)
+(* import_data looks at a number text only through parse: parsing every number text of a file beforehand changes nothing *)
+Theorem C16_import_parse_natural : forall (D T : Type) (d0 : D) (parse : T -> D) (ofZ : Z -> D) (b : Z) (f : list (list (token T))),
+  import_lines D D d0 (idD D) ofZ b (plines D T parse f) = import_lines D T d0 parse ofZ b f.
+Proof. exact import_lines_nat. Qed.
+(* NO hypothesis on print / parse (fmt_data / fmt_weights coarser than "%.16e" included): what is read back is the object
+   with every value v replaced by parse (print v) — same type, shape, subscripts, stored order, rank, layout *)
+Theorem C16_roundtrip_any_format : forall (D T : Type) (d0 : D) (print : D -> T) (parse : T -> D) (ofZ : Z -> D) (b : Z) (o : obj D),
+  wf_obj D o -> wf_lines D o ->
+  import_lines D T d0 parse ofZ b (export_lines D T d0 print b o) = Some (map_obj D (rnd D T print parse) o).
+Proof. exact roundtrip_lines_fmt. Qed.
+
 Print Assumptions C16_roundtrip_tensor.
 Print Assumptions C16_dense_layout.
 Print Assumptions C16_roundtrip_sptensor.
@@ -138,6 +181,13 @@ Print Assumptions C16_import_type_guard.
 Print Assumptions C16_header_rest_ignored.
 Print Assumptions C16_import_sptensor_in_range.
 Print Assumptions C16_format_layout.
+Print Assumptions C16_roundtrip_sptensor_long.
+Print Assumptions C16_long_import_bridge.
+Print Assumptions C16_long_export_bridge.
+Print Assumptions C16_tokenise.
+Print Assumptions C16_roundtrip_text.
+Print Assumptions C16_import_parse_natural.
+Print Assumptions C16_roundtrip_any_format.
 
 (* ---- non-vacuity: concrete, non-symmetric instances (numbers stand for themselves) ---- *)
 Example C16_example_tensor :
@@ -206,3 +256,35 @@ Example C16_rank0_not_reimported :
      [Word "matrix"]; [Int 2]; [Int 3; Int 0]; []; []; []]%Z
   /\ zimport_lines 1 (zexport_lines 1 (OKtensor K)) = None.
 Proof. vm_compute. split; reflexivity. Qed.
+
+(* long modes: subscripts above 2^53 (not representable as doubles) travel exactly, with every index base *)
+Example C16_example_long :
+  let S := mkSpz [1152921504606846976; 3]%Z [[1152921504606846975; 2]; [9007199254740993; 0]]%Z [7; 9]%Z in
+  zexport_spz 1 S =
+    [[Word "sptensor"]; [Int 2]; [Int 1152921504606846976; Int 3]; [Int 2];
+     [Int 1152921504606846976; Int 3; Num 7]; [Int 9007199254740994; Int 1; Num 9]]%Z
+  /\ zimport_spz 1 (zexport_spz 1 S) = Some S
+  /\ zimport_spz 0 (zexport_spz 0 S) = Some S
+  /\ zimport_spz 0 (zexport_spz 1 S) = None.       (* read with a smaller base: subscript 2^60 does not fit a mode of 2^60 *)
+Proof. vm_compute. repeat split; reflexivity. Qed.
+
+(* characters: CR LF line ends, padding blanks and a run of blanks among VALUES are harmless; a run of blanks on a header or
+   sparse-entry line gives an empty piece that int() rejects; a lone blank line among sparse entries is an entry without tokens *)
+Example C16_example_text :
+  let S := mkSp [2; 3] [[1; 2]] [7]%Z in
+  zimport_text 1 [ATok (Word "sptensor"); ACR; ALF; ABlank; ATok (Int 2); ABlank; ABlank; ACR; ALF; ATok (Int 2); ABlank; ATok (Int 3); ALF;
+                  ATok (Int 1); ALF; ATok (Int 2); ABlank; ATok (Int 3); ABlank; ATok (Num 7); ABlank; ACR; ALF]%Z = Some (OSptensor S)
+  /\ zimport_text 1 [ATok (Word "sptensor"); ALF; ATok (Int 2); ALF; ATok (Int 2); ABlank; ABlank; ATok (Int 3); ALF;
+                     ATok (Int 1); ALF; ATok (Int 2); ABlank; ATok (Int 3); ABlank; ATok (Num 7); ALF]%Z = None
+  /\ zimport_text 1 [ATok (Word "tensor"); ALF; ATok (Int 1); ALF; ATok (Int 3); ALF;
+                     ATok (Num 10); ABlank; ABlank; ABlank; ATok (Num 11); ALF; ABlank; ALF; ATok (Num 12)]%Z
+       = Some (OTensor (mkDense [3] [10; 11; 12]%Z)).
+Proof. vm_compute. repeat split; reflexivity. Qed.
+
+(* a coarse "format" on the Z instance: print rounds down to a multiple of 10, parse is the identity *)
+Example C16_example_coarse_format :
+  let coarse := fun v : Z => (v / 10 * 10)%Z in
+  let K := mkK [21; 39]%Z [[[11; 12]; [13; 14]; [15; 26]]; [[37; 48]]]%Z in
+  import_lines Z Z 0%Z zid z_bits 1 (export_lines Z Z 0%Z coarse 1 (OKtensor K))
+    = Some (OKtensor (mkK [20; 30]%Z [[[10; 10]; [10; 10]; [10; 20]]; [[30; 40]]]%Z)).
+Proof. vm_compute. reflexivity. Qed.
